@@ -91,7 +91,7 @@ def child_main(args) -> int:
         "nontrivial": sorted(ctx.nontrivial),
         "samples": ctx.samples,
         "extras": ctx.extras,
-        "violations": kernel.LOG.violations[:200],
+        "violations": [dict(v, hashseed=os.environ.get("PYTHONHASHSEED")) for v in kernel.LOG.violations[:200]],
         "n_violations": len(kernel.LOG.violations),
         "counters": dict(kernel.LOG.counters),
         "monitor_errors": kernel.LOG.monitor_errors,
@@ -156,7 +156,12 @@ def run_parent(args) -> int:
         cmd = [sys.executable, "-m", "vmon.runner", prop, "--tier", tier, "--seed", str(seed),
                "--shard", str(i), "--nshards", str(nshards), "--out", out]
         errf = open(os.path.join(WORK, f"{tagname}.{i}.err"), "w")
-        procs.append((i, out, errf, subprocess.Popen(cmd, cwd=VERIF_DIR, env=env, stdout=errf, stderr=errf)))
+        # every shard runs under its own hash seed: set/dict iteration order is a configuration dimension of
+        # several properties (workload generation itself is hash-seed independent by construction)
+        env_i = dict(env)
+        if not os.environ.get("VERIF_FIXED_HASHSEED"):
+            env_i["PYTHONHASHSEED"] = str((seed * 17 + i) % 4096)
+        procs.append((i, out, errf, subprocess.Popen(cmd, cwd=VERIF_DIR, env=env_i, stdout=errf, stderr=errf)))
     results, problems = [], []
     for i, out, errf, p in procs:
         remaining = max(1.0, timeout - (time.time() - t0))
@@ -306,6 +311,7 @@ def run_parent(args) -> int:
         "unlisted_violations": len(unknown),
         "inconclusive_reasons": inconclusive,
         "shards": nshards,
+        "hash_seeds": "one PYTHONHASHSEED per shard: (VERIF_SEED*17 + shard) mod 4096",
         "repo": REPO,
     }
     cov.update(extras)
@@ -341,6 +347,11 @@ def run_replay(args) -> int:
     mod = load_prop(args.prop)
     kernel.connect_hooks()
     data = json.load(open(args.replay))
+    hs = data.get("hashseed")
+    if hs is not None and os.environ.get("PYTHONHASHSEED") != str(hs) and not os.environ.get("VERIF_REPLAY_REEXEC"):
+        env = dict(os.environ, PYTHONHASHSEED=str(hs), VERIF_REPLAY_REEXEC="1")
+        return subprocess.run([sys.executable, "-m", "vmon.runner", args.prop, "--replay", args.replay], env=env,
+                              cwd=VERIF_DIR).returncode
     case = data.get("case", data)
     mod.replay(case)
     found, _ = load_findings(args.prop)
